@@ -1003,6 +1003,10 @@ class CryptContext:
             tmp = source
             source = dict(self._config.iter_config(resolve=True))
             source.update(tmp)
+            for (cat, scheme, key), value in tmp.items():
+                if value is None and not cat and not scheme and key in _global_settings:
+                    # the bare spelling of a global setting is stored under the "all" scheme
+                    source.pop((None, "all", key), None)
 
         # -----------------------------------------------------------
         # compile into _CryptConfig instance, and update state
